@@ -139,9 +139,15 @@ def any_game(draw, max_n: int):
         if draw(st.booleans()):
             return seeded_superadditive(n, seed, draw(st.sampled_from(["int", "dyadic", "float"])))
         rng = random.Random(seed)
-        vals = [float(rng.randint(-64, 64)) for _ in range(1 << n)]
+        if rng.random() < 0.5:
+            vals = [float(rng.randint(-64, 64)) for _ in range(1 << n)]
+            how = "seeded-arbitrary"
+        else:   # big coalitions worth less than their parts: separates 'split into known parts' from 'split into any parts'
+            from ..oracles import popcount
+            vals = [float(rng.randint(1, 9)) if popcount(s) == 1 else float(rng.randint(0, 6) - 3 * (popcount(s) - 1)) for s in range(1 << n)]
+            how = "seeded-arbitrary-decreasing"
         vals[0] = 0.0
-        return {"n": n, "cls": "int", "v": vals, "how": f"seeded-arbitrary({seed})"}
+        return {"n": n, "cls": "int", "v": vals, "how": f"{how}({seed})"}
     if draw(st.booleans()):
         return draw(arbitrary_games(n, n))
     return draw(superadditive_games(n, n)) if n >= 3 else draw(arbitrary_games(n, n))
@@ -226,7 +232,7 @@ def _sample(case):
 
 def plan(tier: str) -> list[dict]:
     if tier == "quick":
-        return [{"max_n": 6, "examples": 60, "steps": 30, "cost": 3} for _ in range(4)]
+        return [{"max_n": 6, "examples": 150, "steps": 30, "cost": 3} for _ in range(3)] + [{"max_n": 7, "examples": 40, "steps": 20, "cost": 4}]
     return ([{"max_n": 6, "examples": 300, "steps": 60, "cost": 6} for _ in range(10)]
             + [{"max_n": 8, "examples": 40, "steps": 40, "cost": 10} for _ in range(6)])
 
